@@ -64,6 +64,8 @@ D2 = _dt.date(2021, 3, 4)
 D3 = _dt.date(1999, 12, 31)
 DT1 = _dt.datetime(2020, 1, 2, 3, 4, 5)
 DT2 = _dt.datetime(2021, 3, 4, 0, 0, 0)
+DT3 = _dt.datetime(2020, 1, 2, 3, 4, 5, 1)      # differs from DT1 in the microsecond only
+DT4 = _dt.datetime(2020, 1, 2, 3, 4, 5, 999999)
 
 BIG = 10 ** 400            # overflows float()
 M61 = 2 ** 61 - 1          # hash(M61) == hash(0)
@@ -75,14 +77,14 @@ POOLS = {
     "complex": [complex(1, 2), complex(0, -1)],
     "str": ["a", "b", "A", " a ", "", "zz"],
     "date": [D1, D2, D3],
-    "datetime": [DT1, DT2],
+    "datetime": [DT1, DT2, DT3, DT4],
 }
 RARE = {
     "int": [BIG],
     "float": [float("nan"), float("inf")],
 }
 KINDS = ["int", "float", "str", "bool", "date", "complex", "datetime"]
-KIND_W = [30, 18, 18, 10, 8, 4, 4]
+KIND_W = [30, 18, 18, 10, 8, 4, 6]
 
 # what may be written into a vector of that kind so that promotion happens
 WIDER = {"bool": ["int", "float"], "int": ["float", "complex"], "float": ["complex"],
